@@ -3,4 +3,4 @@ From Coq Require Import ExtrOcamlBasic.
 From PV Require Import Dsh.Sys.
 Extraction Language OCaml.
 Set Extraction KeepSingleton.
-Extraction "sys_model.ml" Sys.step Sys.init Sys.next_target Sys.inflight Sys.mkcfg Sys.calm Sys.hang_due.
+Extraction "sys_model.ml" Sys.step Sys.init Sys.next_target Sys.inflight Sys.mkcfg Sys.calm Sys.hang_due Sys.blockedb.
